@@ -1,9 +1,10 @@
 """C08 block_split: every point gets the label of the block that contains it."""
 import random
 import numpy as np
-from . import core, layouts
+from . import core, layouts, pylite_tie
 from .core import Case, cZ, cD, clist, cbool, copt
 
+obligations = pylite_tie.blocksplit_obligations   # source-regenerated tie of block_split (harness/pylite_blocksplit.v.tmpl)
 ID = "C08"
 PROPS_FILE = "Props/C08.v"
 IMPORTS = "From Verde Require Import Model.Coordinates Model.CoordCases Model.Blocks."
